@@ -654,12 +654,15 @@ func (s *scope) storeOutputs(descriptor *Descriptor, info *reflection.Constructo
 		// first time: the instance this scope (or the provider) already serves for the
 		// sibling stays the service, the new one is only owned so that it is disposed
 		if sibling != descriptor && s.serves(sibling, key) {
-			owned := *sibling
-			owned.Lifetime = Transient
-			if err := s.setInstance(&owned, key, value); err != nil && setErr == nil {
-				setErr = err
+			// (unless it is an instance this invocation has handed over already)
+			if !alreadyStored(stored, value) {
+				owned := *sibling
+				owned.Lifetime = Transient
+				if err := s.setInstance(&owned, key, value); err != nil && setErr == nil {
+					setErr = err
+				}
+				stored = append(stored, value)
 			}
-			stored = append(stored, value)
 			continue
 		}
 
